@@ -233,7 +233,7 @@ def _run(case, base, res):
     if rc != 0:
         cls = _exc_class(err)
         res.outcome = f"run:exit={rc}:{cls}"
-        res.fail(f"cli/run/exit={rc}/{cls}/form={form}", f"{where}: `eko {' '.join(args)}` exits with {rc}: ...{_tail(err)}")
+        res.fail(f"cli/run/exit={rc}/{cls}", f"{where}: `eko {' '.join(args)}` exits with {rc}: ...{_tail(err)}")
         return
     new = sorted(str(p.relative_to(cwd)) for p in set(cwd.rglob("*")) - before)
     if not outp.is_file() or new != [str(outp.relative_to(cwd))]:
@@ -247,13 +247,13 @@ def _run(case, base, res):
     eko.solve(lt, lo, path=lib)
     got, ref = cards.read_ops(outp), cards.read_ops(lib)
     if sorted(got) != sorted(ref):
-        res.fail(f"cli/run/points-differ/form={form}", f"{where}: CLI archive has {sorted(got)}, library {sorted(ref)}")
+        res.fail("cli/run/points-differ", f"{where}: CLI archive has {sorted(got)}, library {sorted(ref)}")
         return
     worst = 0.0
     for ep in ref:
         for k, (a, b) in enumerate(zip(got[ep], ref[ep])):
             if (a is None) != (b is None):
-                res.fail(f"cli/run/error-presence/form={form}", f"{where}: at {ep} {'error' if k else 'operator'} present in one archive only")
+                res.fail("cli/run/error-presence", f"{where}: at {ep} {'error' if k else 'operator'} present in one archive only")
                 continue
             if a is None:
                 continue
@@ -262,7 +262,7 @@ def _run(case, base, res):
             worst = max(worst, dev)
             if not dev <= 1e-12:
                 res.fail(
-                    f"cli/run/operators-differ/form={form}",
+                    "cli/run/operators-differ",
                     f"{where}: at {ep} {'error' if k else 'operator'} tensors differ by {dev:.3g} (relative to the largest element)",
                 )
     # sanity of the comparison: the operator is not the identity everywhere (something was computed)
